@@ -39,15 +39,16 @@ type c19Arg struct {
 
 var c19Args = []c19Arg{
 	{"7", "7", "int32"}, {"-3", "-3", "int32"}, {`"s"`, "s", "string"}, {`"héllo x"`, "héllo x", "string"}, {"2.5", "2.5", "float64"}, {"true", "true", "bool"},
-	{"b8", "200", "uint8"}, {"i8", "-100", "int8"}, {"u32", "4000000000", "uint32"}, {"xs", "[1 2]", "[]int32"}, {"nilv", "nil", "any"}, {"loc", "41", "int32"},
+	{"b8", "200", "uint8"}, {"i8", "-100", "int8"}, {"u32", "4000000000", "uint32"}, {"xs", "[1 2]", "[]int32"}, {"nilv", "nil", "any"}, {"loc", "41", "int32"}, {"nz", "-0", "float64"}, {"inf", "+Inf", "float64"},
 }
 
-const c19Decls = "var b8 byte = 200; var i8 int8 = -100; var u32 uint32 = 4000000000; xs := []int{1, 2}; var nilv any; "
+const c19Decls = "type NatH struct { F func() }; var b8 byte = 200; var i8 int8 = -100; var u32 uint32 = 4000000000; xs := []int{1, 2}; var nilv any; zz := 0.0; nz := -zz; inf := 1.0 / zz; "
 
 type c19Rec struct {
 	args []string
 	typs []string
 	n    int
+	all  []string // what every call received (values and types), in call order
 }
 
 func c19Value(i int) (goatlang.Value, string) {
@@ -57,6 +58,9 @@ func c19Value(i int) (goatlang.Value, string) {
 	case 1:
 		return goatlang.String(fmt.Sprintf("r%d", i)), fmt.Sprintf("r%d", i)
 	case 2:
+		if i == 2 {
+			return goatlang.Float64(math.Copysign(0, -1)), "-0" // the sign of a zero survives the trip
+		}
 		return goatlang.Float64(float64(i) + 0.5), fmt.Sprint(float64(i) + 0.5)
 	case 3:
 		return goatlang.Bool(i%2 == 1), fmt.Sprint(i%2 == 1)
@@ -78,6 +82,7 @@ func c19Native(vm *goatlang.VM, form, argc, rets int, rec *c19Rec) goatlang.Valu
 			}
 			rec.typs = append(rec.typs, t)
 		}
+		rec.all = append(rec.all, strings.Join(rec.args, "\x00")+"\x01"+strings.Join(rec.typs, "\x00"))
 	}
 	results := func() []goatlang.Value {
 		var out []goatlang.Value
@@ -160,6 +165,20 @@ func c19NativeCase(seed int64, idx int) (string, c19Case) {
 		sb.WriteString("w := wrap(" + call + "); acc = append(acc, w); ")
 	}
 	sb.WriteString("for i := 0; i < 3; i++ { t := i * 10; " + call + "; acc = append(acc, t + loc + i) }; ")
+	if rets >= 2 {
+		// a typed multi-variable declaration initialised from one call
+		sb.WriteString("var " + strings.Join(resNames, ", ") + " any = " + call + "; acc = append(acc, " + strings.Join(resNames, ", ") + "); ")
+	}
+	if form == 6 {
+		// the native held in a struct field, reached through a local receiver, with a spread slice
+		hcall := "hh.F(" + strings.Join(append(append([]string{}, lits[:argc]...), "hsp..."), ", ") + ")"
+		sb.WriteString("hsp := []any{" + strings.Join(lits[argc:], ", ") + "}; hh := &NatH{F: nat}; ")
+		if rets > 0 {
+			sb.WriteString(strings.Join(resNames, ", ") + " = " + hcall + "; acc = append(acc, " + strings.Join(resNames, ", ") + "); ")
+		} else {
+			sb.WriteString(hcall + "; ")
+		}
+	}
 	fwdCall := call
 	if form == 6 {
 		fwdCall = "nat(" + strings.Join(append(append([]string{}, lits[:argc]...), "sp..."), ", ") + ")"
@@ -197,7 +216,19 @@ func c19NativeCase(seed int64, idx int) (string, c19Case) {
 	if strings.Join(rec.args, "\x00") != strings.Join(wantS, "\x00") || strings.Join(rec.typs, "\x00") != strings.Join(wantT, "\x00") {
 		return fmt.Sprintf("the native received %v %v, the script passed %v %v", rec.args, rec.typs, wantS, wantT), cs
 	}
+	// every call passed the same arguments
+	for ci, got := range rec.all {
+		if want := strings.Join(wantS, "\x00") + "\x01" + strings.Join(wantT, "\x00"); got != want {
+			return fmt.Sprintf("call %d of %d: the native received %q, the script passed %q", ci+1, len(rec.all), got, want), cs
+		}
+	}
 	wantCalls := 1 + 3 + 1
+	if rets >= 2 {
+		wantCalls++
+	}
+	if form == 6 {
+		wantCalls++
+	}
 	if rets > 0 {
 		wantCalls++
 	}
@@ -215,6 +246,12 @@ func c19NativeCase(seed int64, idx int) (string, c19Case) {
 		want = append(want, "11", w0.String())
 	}
 	want = append(want, "41", "52", "63")
+	if rets >= 2 {
+		want = append(want, wantRes...)
+	}
+	if form == 6 && rets > 0 {
+		want = append(want, wantRes...)
+	}
 	want = append(want, wantRes...)
 	want = append(want, "41")
 	if len(o.Rets) != 1 || o.Rets[0] != "["+strings.Join(want, " ")+"]" {
@@ -232,6 +269,9 @@ func c19RoundTrip(seed int64, idx int) (string, c19Case) {
 		x = core.Pick(rng, []int64{0, 1, -1, math.MaxInt32, math.MinInt32, math.MaxInt32 + 1, math.MaxUint32, 255, 256, -129, 127, -128})
 	}
 	f := math.Float64frombits(rng.Uint64())
+	if rng.Bool() {
+		f = core.Pick(rng, []float64{math.Copysign(0, -1), 0, math.Inf(1), math.Inf(-1), math.NaN(), math.Float64frombits(0x7ff8000000000123), math.SmallestNonzeroFloat64, -math.SmallestNonzeroFloat64, math.MaxFloat64, 0.1, -0.5, 1 << 53, 1<<53 + 1})
+	}
 	bad := func(what string, got, want any) (string, c19Case) {
 		cs.Args = []string{fmt.Sprint(x), fmt.Sprint(f)}
 		return fmt.Sprintf("%s: got %v, want %v", what, got, want), cs
